@@ -391,10 +391,13 @@ Stats == PrintT(<<"STATS", [nodes |-> NLog,
            safeLiquidateRequests |-> Count(LAMBDA nd : Judged(nd) /\ nd.a = "Liquidate" /\ nd.res.ok /\ SeizedB(PreS(nd), PostS(nd)) = {}),
            nearSafeRequests |-> Count(LAMBDA nd : Judged(nd) /\ nd.a = "Liquidate" /\ nd.res.ok /\ HasId(Pre(nd).borrows, nd.args.b) /\
                                    LET b == GetId(Pre(nd).borrows, nd.args.b) IN
-                                   ~b.liq /\ HasId(Post(nd).borrows, b.id) /\ ~GetId(Post(nd).borrows, b.id).ho /\ UnsafeWith(CfgOf(nd), Pre(nd), [b EXCEPT !.out = (@ * 11) \div 10], b.iT)),
+                                   ~b.liq /\ HasId(Post(nd).borrows, b.id) /\ ~GetId(Post(nd).borrows, b.id).ho /\ UnsafeWith(CfgOf(nd), Pre(nd), [b EXCEPT !.out = @ + (@ \div 10)], b.iT)),
            nearSafeBridged2 |-> Count(LAMBDA nd : Judged(nd) /\ nd.a \in {"Liquidate", "Tick"} /\ \E b \in Range(Pre(nd).borrows) :
                                    (nd.a = "Tick" \/ nd.args.b = b.id) /\ ~b.liq /\ b.bram > 0 /\ b.bra = 3 /\ HasId(Post(nd).borrows, b.id) /\ ~GetId(Post(nd).borrows, b.id).ho
-                                   /\ UnsafeWith(CfgOf(nd), Pre(nd), [b EXCEPT !.out = (@ * 11) \div 10], b.iT)),
+                                   /\ UnsafeWith(CfgOf(nd), Pre(nd), [b EXCEPT !.out = @ + (@ \div 10)], b.iT)),
+           nearSafeEmode |-> Count(LAMBDA nd : Judged(nd) /\ nd.a \in {"Liquidate", "Tick"} /\ ~CfgOf(nd).v1 /\ ~PreS(nd).x.ks /\ \E b \in Range(Pre(nd).borrows) :
+                                   (nd.a = "Tick" \/ nd.args.b = b.id) /\ ~b.liq /\ HasPair(CfgOf(nd), b.pair) /\ PairC(CfgOf(nd), b.pair).emode /\ HasId(Post(nd).borrows, b.id) /\ ~GetId(Post(nd).borrows, b.id).ho
+                                   /\ UnsafeWith(CfgOf(nd), Pre(nd), [b EXCEPT !.out = @ + (@ \div 9)], b.iT)),
            killedSteps |-> Count(LAMBDA nd : Judged(nd) /\ PreS(nd).x.ks /\ nd.a \in {"Liquidate", "Tick"}),
            blocks |-> Count(LAMBDA nd : ~IsRoot(nd) /\ IsBlock(nd)),
            longWaits |-> Cardinality({i \in 1..NLog : ~IsRoot(Nd(i)) /\ IsBlock(Nd(i)) /\ \E b \in Range(Post(Nd(i)).borrows) : BadBlocks(i, b.id, TRUE) >= 2}),
